@@ -760,6 +760,41 @@ def members_set_before_use(facts, res, R="C15.12.member-set-before-use", prefix=
     return n
 
 
+def wrap_sum_in_range(facts, res, R="C15.14.wrap-sum-in-range", classes=("TbfMortonSpaceIndex", "TbfHilbertSpaceIndex")):
+    """The periodic neighbour lists wrap a coordinate p in [-1, L] with `(p + L) % L`, L = 2^level.  The sum reaches 2L = 2^(level+1): for
+    the deepest level whose indices still fit (level x Dim <= 62) it must stay below 2^63.  Per ordering class: the dimensions it accepts
+    (static_assert Dim == k, else 1..4), the deepest level of each, and every `(x + limit) % limit` whose limit is `1 << level`."""
+    n = 0
+    for cls in classes:
+        ms = [m for m in facts.methods_of(cls) if tbf.body(m) is not None and not m.get("inst")]
+        if not ms:
+            raise AnalysisBroken("%s not found" % cls)
+        src = open(facts.path_of(ms[0])).read()
+        fixed = re.search(r"static_assert\s*\(\s*Dim_T\s*==\s*(\d+)", src)
+        dims = [int(fixed.group(1))] if fixed else [1, 2, 3, 4]
+        for m in ms:
+            decls = {v["did"]: v for v in walk(tbf.body(m)) if v.get("k") == "VarDecl"}
+            for x in walk(tbf.body(m)):
+                if x.get("k") != "BinaryOperator" or x.get("op") != "%":
+                    continue
+                l, r = strip(kids(x)[0]), strip(kids(x)[1])
+                if l.get("k") != "BinaryOperator" or l.get("op") != "+" or r.get("k") != "DeclRefExpr":
+                    continue
+                if not any(strip(c_).get("did") == r.get("did") for c_ in kids(l)):
+                    continue
+                d = decls.get(r.get("did"))
+                if d is None or not kids(d) or "<<" not in facts.ntext(kids(d)[0]):
+                    continue
+                n += 1
+                bad = [D for D in dims if 2 * (1 << (62 // D)) > (1 << 63) - 1]
+                res.instance(R, "%s@%d" % (m["qname"], x["l"][1]), facts.loc(x), "`%s` with %s = %s; dimensions %s, deepest levels %s" % (facts.ntext(x)[:50], r.get("name"), facts.ntext(kids(d)[0])[:30], dims, [62 // D for D in dims]))
+                if bad:
+                    res.violation(R, tbf.rel(facts.path_of(x)), m["qname"], "wrap-sum:%s@%d" % (m["name"], x["l"][1]), x["l"][1],
+                                  "`%s` adds the grid limit 2^level to a coordinate that can equal it: in dimension %s the deepest level whose indices fit 63 bits is %d, and 2^%d + 2^%d overflows the signed 64-bit type (undefined behaviour; wrap the coordinate with a comparison instead of a sum)"
+                                  % (facts.ntext(x)[:50], bad[0], 62 // bad[0], 62 // bad[0], 62 // bad[0]))
+    return n
+
+
 def run(res, tier):
     facts = tbf.scan("core")
     res.units.append("umbrella TU 'core': OpenMP executors (CreateNew), rotation/uniform kernels + TbfPeriodicShifter, TbfMemoryBlock, wrapper/top-tree fill idioms")
@@ -841,6 +876,16 @@ def run(res, tier):
     if got11 != ["falls-off:operator=", "unset:plan"]:
         raise AnalysisBroken("positive control fixtures/c15_special_members.cpp: reported %s, expected the assignment without return and the move constructor's plan" % got11)
     res.instance("C15.11.value-returned", "positive control", "verif:fixtures/c15_special_members.cpp", "2 of 2 seeded constructs reported, 3 harmless ones silent")
+    res.rule("C15.14 the periodic wrap `(p + limit) % limit` stays in range at the deepest level of every dimension the ordering accepts")
+    n14 = wrap_sum_in_range(facts, res)
+    res.instance("C15.14.wrap-sum-in-range", "ordering classes", "src/spacial", "%d modulo wraps by a sum with the grid limit" % n14)
+    fx14 = os.path.join(tbf.VERIF, "fixtures", "c15_wrap_sum.cpp")
+    ff14 = tbf.scan_file(fx14, [], [os.path.join(tbf.VERIF, "fixtures") + os.sep])
+    ctl14 = tbf.Result("control")
+    wrap_sum_in_range(ff14, ctl14, classes=("WrapFixture",))
+    if len(ctl14.violations) != 1 or "wrapBySum" not in ctl14.violations[0]["function"]:
+        raise AnalysisBroken("positive control fixtures/c15_wrap_sum.cpp: %d of 1 wraps by a sum reported" % len(ctl14.violations))
+    res.instance("C15.14.wrap-sum-in-range", "positive control", "verif:fixtures/c15_wrap_sum.cpp", "1 of 1 seeded constructs reported, the comparison form silent")
     res.rule("C15.13 what the tree remembers about its groups (a position of the group that answered last, a directory, a slot table) is reset by rebuild(): a remembered position past the end of the refilled containers is an out-of-bounds access at the next query (rule C13.5)")
     import c13
     sub13 = tbf.Result("C13")
